@@ -305,7 +305,7 @@ pub fn plan_lifecycle_lp(w: &World, knobs: &Knobs, actor: &mut Actor, l: &Ledger
                 flow.push((tx1(ix::increase_liquidity(&la, rng.log_u128(40), u64::MAX, u64::MAX)), "increase_liquidity".into()));
             }
         }
-        18 if !bundles.is_empty() => {
+        12 | 18 if !bundles.is_empty() && (action == 18 || mine.is_empty()) => {
             // close a bundled position (open or free index; maybe after withdrawing)
             let (bmint, bk, bta, bitmap) = &bundles[rng.idx(bundles.len())];
             let set: Vec<u16> = (0..256u16).filter(|i| bitmap[(*i / 8) as usize] & (1 << (i % 8)) != 0).collect();
